@@ -168,14 +168,12 @@ def initApiFirst (umax : Option Versions) : Int :=
   | none => 4
   | some vs => let (userMax, exists_) := vs.lookup 18; if exists_ ∧ userMax ≥ 0 then userMax else 4
 
-/-- The answer of a broker that follows KIP-511, as scripted by the harness: a request above 4 or above
-the advertised ApiVersions max is refused with UNSUPPORTED_VERSION and a v0 body holding only key 18
-(advertised max, or 4 when the script advertises none / a negative one); `none` = accepted. -/
+/-- The answer of a broker that follows KIP-511, as scripted by the harness: a request above the
+advertised ApiVersions max (4 when the script advertises none / a negative one) is refused with
+UNSUPPORTED_VERSION and a v0 body holding only key 18 with that max; `none` = accepted. -/
 def scriptRefuses (adv18 : Option ApiKey) (v : Int) : Option Int :=
-  let hi := match adv18 with | some e => if e.max ≥ 0 then some e.max else none | none => none
-  match hi with
-  | some h => if v > h ∨ v > 4 then some h else none
-  | none => if v > 4 then some 4 else none
+  let hi : Int := match adv18 with | some e => if e.max ≥ 0 then e.max else 4 | none => 4
+  if v > hi then some hi else none
 
 /-- The `start:` loop of `requestAPIVersions` against such a broker: the versions written, in order,
 and whether a table was finally loaded. `rawResp[1] == 35`: `maxVersion == 0` → error; one key 18 with
